@@ -112,11 +112,18 @@ fn code_site_ops(n: usize, s: &Site) -> Vec<Operator<'static>> {
     v
 }
 
+/// the type index that belongs to the function (import or base function) with fingerprint fp
+fn fn_ty(fp: u64) -> u32 { (fp % 3) as u32 }
+/// what the decoder reports for a function whose type index is not the one that belongs to its fingerprint
+const WRONG_TYPE: u64 = 5_000_000;
+
 fn build(b: &Base, sites: &[Site]) -> Vec<u8> {
     use wasm_encoder as we;
     let mut m = we::Module::new();
     let mut types = we::TypeSection::new();
-    types.ty().function([], []);
+    // three structurally equal function types: the *type index* of a function import / base function is part of
+    // its identity (fingerprint fp <-> type fp % 3), while every call site validates whatever index is emitted
+    types.ty().function([], []); types.ty().function([], []); types.ty().function([], []);
     m.section(&types);
     let ntab_imp = b.imports.iter().filter(|x| x.0 == 3).count() as u32;
     if !b.imports.is_empty() {
@@ -124,7 +131,7 @@ fn build(b: &Base, sites: &[Site]) -> Vec<u8> {
         for (k, fp) in &b.imports {
             let name = format!("i{fp}");
             match k {
-                0 => { is.import("env", &name, we::EntityType::Function(0)); }
+                0 => { is.import("env", &name, we::EntityType::Function(fn_ty(*fp))); }
                 1 => { is.import("env", &name, we::EntityType::Global(we::GlobalType { val_type: we::ValType::I32, mutable: false, shared: false })); }
                 2 => { is.import("env", &name, we::EntityType::Memory(we::MemoryType { minimum: 1, maximum: None, memory64: false, shared: false, page_size_log2: None })); }
                 3 => { is.import("env", &name, we::EntityType::Table(we::TableType { element_type: we::RefType::FUNCREF, table64: false, minimum: 0, maximum: None, shared: false })); }
@@ -134,7 +141,7 @@ fn build(b: &Base, sites: &[Site]) -> Vec<u8> {
         m.section(&is);
     }
     let mut fs = we::FunctionSection::new();
-    for _ in &b.funcs { fs.function(0); }
+    for fp in &b.funcs { fs.function(fn_ty(*fp)); }
     m.section(&fs);
     let mut ts = we::TableSection::new();
     let tty = we::TableType { element_type: we::RefType::FUNCREF, table64: false, minimum: 64, maximum: None, shared: false };
@@ -207,8 +214,9 @@ struct Dec { imports: Vec<(u64, u64)>, funcs: Vec<u64>, globals: Vec<u64>, mems:
 
 /// `elem_sites`: site numbers of the element items in segment order; `init_sites`: site numbers of the live
 /// initialiser references in creation order of their globals, per flavour (getter, ref.func)
-fn decode(out: &[u8], elem_sites: &[usize], start_site: Option<usize>, init_get: &[usize], init_ref: &[usize], elem_off: Option<usize>, table_init: Option<usize>) -> Option<Dec> {
+fn decode(out: &[u8], elem_sites: &[usize], start_site: Option<usize>, init_get: &[usize], init_ref: &[usize], elem_off: Option<usize>, table_init: Option<usize>, base_funcs: &[u64]) -> Option<Dec> {
     let mut d = Dec { imports: vec![], funcs: vec![], globals: vec![], mems: vec![], sites: vec![] };
+    let mut fn_types: Vec<u32> = vec![];
     let mut elem_seen = 0usize; let mut nget = 0usize; let mut nref = 0usize;
     for p in wasmparser::Parser::new(0).parse_all(out) {
         match p.ok()? {
@@ -216,6 +224,8 @@ fn decode(out: &[u8], elem_sites: &[usize], start_site: Option<usize>, init_get:
                 let i = i.ok()?;
                 let fp: u64 = i.name[1..].parse().ok()?;
                 let k = match i.ty { wasmparser::TypeRef::Func(_) => 0, wasmparser::TypeRef::Global(_) => 1, wasmparser::TypeRef::Memory(_) => 2, wasmparser::TypeRef::Table(_) => 3, wasmparser::TypeRef::Tag(_) => 4 };
+                // a function import carries the type it was given (parsed / add_import_func / convert_local_fn_to_import)
+                let fp = match i.ty { wasmparser::TypeRef::Func(t) if t != fn_ty(fp) => fp + WRONG_TYPE, _ => fp };
                 d.imports.push((k, fp));
             },
             wasmparser::Payload::GlobalSection(r) => for g in r {
@@ -269,6 +279,7 @@ fn decode(out: &[u8], elem_sites: &[usize], start_site: Option<usize>, init_get:
                     }
                 }
             },
+            wasmparser::Payload::FunctionSection(r) => for t in r { fn_types.push(t.ok()?); },
             wasmparser::Payload::CodeSectionEntry(b) => {
                 let mut ops = vec![];
                 let mut rd = b.get_operators_reader().ok()?;
@@ -303,6 +314,10 @@ fn decode(out: &[u8], elem_sites: &[usize], start_site: Option<usize>, init_get:
                     }
                     i += 1;
                 }
+                // a function of the input keeps its type index (a built function has whichever of the equal types the
+                // builder's deduplication returns)
+                let ty = fn_types.get(d.funcs.len()).copied();
+                if base_funcs.contains(&fp) && ty != Some(fn_ty(fp)) { fp += WRONG_TYPE; }
                 d.funcs.push(fp);
             }
             _ => {}
@@ -343,7 +358,9 @@ fn main() {
     if args.flags.iter().any(|f| f == "--exhaustive") && args.only.is_none() {
         for k in 0..exh_count() { args.extra.push((args.seed, EXH_BASE + k)); }
     }
-    let header = "From Coq Require Import List NArith.\nImport ListNotations.\nFrom Orca Require Import Reindex CheckReidx.\nOpen Scope N_scope.";
+    // C05's verdict (model of the second encode) lives in Check/CheckReidx2.v
+    let header_s = format!("From Coq Require Import List NArith.\nImport ListNotations.\nFrom Orca Require Import Reindex CheckReidx{}.\nOpen Scope N_scope.", if args.prop == "C05" { " CheckReidx2" } else { "" });
+    let header = header_s.as_str();
     let footer = format!("Eval vm_compute in (report_{} cases).", args.prop);
     let prop = args.prop.clone();
     run_shards(&args, header, "rcase", &footer, |seed, idx| {
@@ -503,13 +520,13 @@ fn gen_case(r: &mut Rng, prop: &str, seed: u64, idx: u64) -> Case {
                     }
                     HOp::AddLocal(Sp::G, fp) => Some(*module.add_global(InitExpr::new(vec![InitInstr::Value(Value::I32(*fp as i32))]), DataType::I32, false, false) as u64),
                     HOp::AddLocal(Sp::M, fp) => Some(*module.add_local_memory(memty(*fp)) as u64),
-                    HOp::AddImport(Sp::F, fp) => Some(*module.add_import_func("env".into(), format!("i{fp}"), TypeID(0)).0 as u64),
+                    HOp::AddImport(Sp::F, fp) => Some(*module.add_import_func("env".into(), format!("i{fp}"), TypeID(fn_ty(*fp))).0 as u64),
                     HOp::AddImport(Sp::G, fp) => Some(*module.add_imported_global("env".into(), format!("i{fp}"), DataType::I32, false, false).0 as u64),
                     HOp::AddImport(Sp::M, fp) => Some(*module.add_import_memory("env".into(), format!("i{fp}"), memty(1)).0 as u64),
                     HOp::Delete(Sp::F, id) => { module.delete_func(FunctionID(*id as u32)); None }
                     HOp::Delete(Sp::G, id) => { module.delete_global(GlobalID(*id as u32)); None }
                     HOp::Delete(Sp::M, id) => { module.delete_memory(MemoryID(*id as u32)); None }
-                    HOp::LocalToImport(id, fp) => { module.convert_local_fn_to_import(FunctionID(*id as u32), "env".into(), format!("i{fp}"), TypeID(0)); None }
+                    HOp::LocalToImport(id, fp) => { module.convert_local_fn_to_import(FunctionID(*id as u32), "env".into(), format!("i{fp}"), TypeID(fn_ty(*fp))); None }
                     HOp::ImportToLocal(k, fp) => {
                         let mut fb = FunctionBuilder::new(&[], &[]);
                         fb.i32_const(*fp as i32); fb.drop();
@@ -597,7 +614,7 @@ fn gen_case(r: &mut Rng, prop: &str, seed: u64, idx: u64) -> Case {
     let enc: Option<(Vec<u8>, bool)> = match res { Ok(x) => x, Err(_) => { api_panic = true; None } };
     let live_init = |getter: bool| -> Vec<usize> { init_owner_ids.iter().filter(|(g, _, ig)| *ig == getter && !dead_globals.contains(g)).map(|(_, s, _)| *s).collect() };
     let (dec, valid, same2) = match &enc {
-        Some((out, same)) => (decode(out, &elem_sites, base.start, &live_init(true), &live_init(false), base.elem_off, base.table_init), validates(out), *same),
+        Some((out, same)) => (decode(out, &elem_sites, base.start, &live_init(true), &live_init(false), base.elem_off, base.table_init, &base.funcs), validates(out), *same),
         None => (None, false, true),
     };
     let undecodable = enc.is_some() && dec.is_none();
